@@ -1554,3 +1554,295 @@ def replay(ctx, rep):
         if f["key"] in keys:
             bad.append(f["key"])
     return (not bad, "; ".join(bad) or "recorded failing inputs pass now")
+
+
+# ------------------------------------------------------------------ O2: r12writer call sequences
+def rnd6(x):
+    """round(x, 6) computed independently: exact binary value, half-even at the 6th decimal"""
+    from decimal import ROUND_HALF_EVEN, Decimal
+
+    if isinstance(x, int):
+        return float(x)
+    return float(Decimal(x).quantize(Decimal("0.000001"), rounding=ROUND_HALF_EVEN))
+
+
+def _c(rng):
+    x = rng.random()
+    if x < 0.2:
+        return rng.randint(-100, 100)
+    if x < 0.4:
+        return rng.randint(-10 ** 7, 10 ** 7) / 10 ** 7 + rng.choice([0, 5e-7, 0.5e-6, 1e-9])     # 7th decimal: rounding needed
+    if x < 0.55:
+        return rng.choice([0.0000005, 0.0000015, 0.0000025, 2.5000005, -0.0000005, 1.0000004999999, 0.1 + 0.2, -0.0,
+                           123456789.1234567, 1e-7, 4.35, 2.675e-5, 1e15 + 0.3, 0.5e-6, 8.5e-7])
+    return rng.uniform(-1000, 1000)
+
+
+def _v(rng, dim):
+    return tuple(_c(rng) for _ in range(dim))
+
+
+def r3(v):
+    """expected location of a written vertex: rounded components, missing z = 0"""
+    t = tuple(rnd6(c) for c in v)
+    return t + (0.0,) * (3 - len(t))
+
+
+R12_TEXTS = ["plain", "with space ", "äöü ß € ©", "semi;colon", "%%c", "", "x" * 200, 'q"', "back\\slash"]
+
+
+def gen_r12_calls(rng, fixed):
+    """-> list of (method, kwargs, expected) ; expected = (dxftype, attribs, vertices or None).
+    Line types and text styles other than the defaults only together with fixed_tables=True (they are defined there);
+    without tables recover's audit resets the undefined references, rightly."""
+    calls = []
+    for _ in range(rng.choice([1, 2, 4, 8, 12])):
+        m = rng.choice(["line", "circle", "arc", "point", "face", "solid", "polyline", "polyline_2d", "polyface", "polymesh", "text"])
+        common = {}
+        exp_c = {"layer": "0"}
+        if rng.random() < 0.5:
+            common["layer"] = rng.choice(["L1", "LAYER 2", "é"])
+            exp_c["layer"] = common["layer"]
+        if rng.random() < 0.4:
+            common["color"] = rng.choice([0, 1, 7, 255, 256])
+            exp_c["color"] = common["color"]
+        if fixed and m not in ("text",) and rng.random() < 0.3:
+            common["linetype"] = rng.choice(["DASHED", "CONTINUOUS"])
+            exp_c["linetype"] = common["linetype"]
+        if m == "line":
+            d = rng.choice([2, 3])
+            a, b = _v(rng, d), _v(rng, d)
+            calls.append(("add_line", dict(start=a, end=b, **common), ("LINE", dict(exp_c, start=r3(a), end=r3(b)), None)))
+        elif m == "circle":
+            c, r = _v(rng, rng.choice([2, 3])), abs(_c(rng)) + 0.001
+            calls.append(("add_circle", dict(center=c, radius=r, **common), ("CIRCLE", dict(exp_c, center=r3(c), radius=rnd6(r)), None)))
+        elif m == "arc":
+            c, r, s, e = _v(rng, 2), abs(_c(rng)) + 0.001, _c(rng), _c(rng)
+            calls.append(("add_arc", dict(center=c, radius=r, start=s, end=e, **common),
+                          ("ARC", dict(exp_c, center=r3(c), radius=rnd6(r), start_angle=rnd6(s), end_angle=rnd6(e)), None)))
+        elif m == "point":
+            p = _v(rng, rng.choice([2, 3]))
+            calls.append(("add_point", dict(location=p, **common), ("POINT", dict(exp_c, location=r3(p)), None)))
+        elif m in ("face", "solid"):
+            n = rng.choice([3, 4])
+            vs = [_v(rng, 3 if m == "face" else 2) for _ in range(n)]
+            ex = dict(exp_c)
+            full = vs + [vs[-1]] if n == 3 else vs
+            for i, v in enumerate(full):
+                ex["vtx%d" % i] = r3(v)
+            kw = dict(vertices=vs, **common)
+            if m == "face":
+                inv = rng.choice([0, 0, 5, 15])
+                kw["invisible"] = inv
+                if inv:
+                    ex["invisible_edges"] = inv
+            calls.append(("add_3dface" if m == "face" else "add_solid", kw, ("3DFACE" if m == "face" else "SOLID", ex, None)))
+        elif m == "polyline":
+            d = rng.choice([2, 3])
+            vs = [_v(rng, d) for _ in range(rng.randint(1, 5))]
+            closed = rng.random() < 0.5
+            vex = [dict(layer=exp_c["layer"], flags=32, location=r3(v)) for v in vs]
+            calls.append(("add_polyline", dict(vertices=vs, closed=closed, **common),
+                          ("POLYLINE", dict(exp_c, flags=8 + int(closed)), vex)))
+        elif m == "polyline_2d":
+            fmt = rng.choice(["xy", "xyb", "xyseb", "xybse", "xys", "xye"])
+            pts, vex = [], []
+            for _ in range(rng.randint(1, 5)):
+                vals = {"x": _c(rng), "y": _c(rng), "s": rng.choice([0, 0.5, 0.1234567]), "e": rng.choice([0, 0.25]),
+                        "b": rng.choice([0, 1, -0.4142135623730951])}
+                pts.append(tuple(vals[c] for c in fmt))
+                ex = dict(layer=exp_c["layer"], flags=0, location=(float(vals["x"]), float(vals["y"]), 0.0))   # NOT rounded
+                for c, name in (("s", "start_width"), ("e", "end_width"), ("b", "bulge")):
+                    if c in fmt and vals[c] != 0:
+                        ex[name] = float(vals[c])
+                vex.append(ex)
+            closed = rng.random() < 0.5
+            sw, ew = rng.choice([0, 0.5]), rng.choice([0, 0.75])
+            ex = dict(exp_c, flags=int(closed))
+            if sw:
+                ex["default_start_width"] = sw
+            if ew:
+                ex["default_end_width"] = ew
+            calls.append(("add_polyline_2d", dict(points=pts, format=fmt, closed=closed, start_width=sw, end_width=ew, **common),
+                          ("POLYLINE", ex, vex)))
+        elif m == "polyface":
+            vs = [_v(rng, 3) for _ in range(rng.randint(3, 6))]
+            faces = [tuple(rng.sample(range(len(vs)), rng.choice([3, 4]) if len(vs) > 3 else 3)) for _ in range(rng.randint(1, 3))]
+            cm = {k: v for k, v in common.items()}
+            vex = [dict(layer=exp_c["layer"], flags=192, location=r3(v)) for v in vs]
+            for f in faces:
+                fx = dict(layer=exp_c["layer"], flags=128, location=(0.0, 0.0, 0.0))
+                if "color" in exp_c:
+                    fx["color"] = exp_c["color"]
+                for i, ix in enumerate(f):
+                    fx["vtx%d" % i] = ix + 1
+                vex.append(fx)
+            calls.append(("add_polyface", dict(vertices=vs, faces=faces, **cm),
+                          ("POLYLINE", dict(exp_c, flags=64, m_count=len(vs), n_count=len(faces)), vex)))
+        elif m == "polymesh":
+            mm, nn = rng.choice([(2, 2), (2, 3), (3, 2)])
+            vs = [_v(rng, 3) for _ in range(mm * nn)]
+            cl = (rng.random() < 0.5, rng.random() < 0.5)
+            vex = [dict(layer=exp_c["layer"], flags=64, location=r3(v)) for v in vs]
+            calls.append(("add_polymesh", dict(vertices=vs, size=(mm, nn), closed=cl, **common),
+                          ("POLYLINE", dict(exp_c, flags=16 + int(cl[0]) + 32 * int(cl[1]), m_count=mm, n_count=nn), vex)))
+        else:
+            txt = rng.choice(R12_TEXTS)
+            ins = _v(rng, 2)
+            h, w, rot, obl = abs(_c(rng)) + 0.01, rng.choice([1.0, 0.8, 1.2345678]), rng.choice([0.0, _c(rng)]), rng.choice([0.0, 15.0000005])
+            align = rng.choice(["LEFT", "CENTER", "MIDDLE_CENTER", "top_right", "BOTTOM_LEFT"])
+            style = rng.choice(["STANDARD", "OpenSans"]) if fixed else "STANDARD"
+            from ezdxf.addons.r12writer import TEXT_ALIGN_FLAGS
+
+            ha, va = TEXT_ALIGN_FLAGS[align.upper()]
+            ex = {"layer": exp_c["layer"], "text": txt, "insert": r3(ins), "height": rnd6(h), "align_point": r3(ins)}
+            if "color" in exp_c:
+                ex["color"] = exp_c["color"]
+            if w != 1.0:
+                ex["width"] = rnd6(w)
+            if rot != 0.0:
+                ex["rotation"] = rnd6(rot)
+            if obl != 0.0:
+                ex["oblique"] = rnd6(obl)
+            if style != "STANDARD":
+                ex["style"] = style
+            ex["halign"], ex["valign"] = ha, va
+            kw = dict(text=txt, insert=ins, height=h, width=w, align=align, rotation=rot, oblique=obl, style=style)
+            kw.update({k: v for k, v in common.items() if k != "linetype"})
+            calls.append(("add_text", kw, ("TEXT", ex, None)))
+    return calls
+
+
+def _check_r12_entity(e, exp):
+    typ, attribs, verts = exp
+    if e.dxftype() != typ:
+        return f"type {e.dxftype()} instead of {typ}"
+    for k, v in attribs.items():
+        got = e.dxf.get(k, e.dxf.dxf_default_value(k) if e.dxf.is_supported(k) else None)
+        if isinstance(v, tuple):
+            from ezdxf.math import Vec3
+
+            g = Vec3(got) if got is not None else None
+            if g is None or (g.x, g.y, g.z) != v:
+                return f"{typ}.{k} = {got!r}, expected {v!r}"
+        elif isinstance(v, str):
+            if got != v:
+                return f"{typ}.{k} = {got!r}, expected {v!r}"
+        elif got is None or float(got) != float(v):
+            return f"{typ}.{k} = {got!r}, expected {v!r}"
+    if verts is not None:
+        subs = list(getattr(e, "_sub_entities", []))
+        if len(subs) != len(verts):
+            return f"{typ} has {len(subs)} vertices, expected {len(verts)}"
+        for i, (s, vx) in enumerate(zip(subs, verts)):
+            d = _check_r12_entity(s, ("VERTEX", vx, None))
+            if d:
+                return f"vertex {i}: {d}"
+    return None
+
+
+def _r12_case(args):
+    seed, idx, tmp = args
+    _quiet()
+    signal.signal(signal.SIGALRM, _on_alarm)
+    import ezdxf
+    from ezdxf import recover
+    from ezdxf.addons import iterdxf
+    from ezdxf.addons.r12writer import r12writer
+
+    rng = random.Random(f"{seed}/r12/{idx}")
+    fixed = idx % 3 == 0
+    calls = gen_r12_calls(rng, fixed)
+    fails = []
+    kinds = [c[0] for c in calls]
+    base = os.path.join(tmp, f"r{os.getpid()}")
+    for fmt in ("asc", "bin"):
+        path = f"{base}-{fmt}.dxf"
+        tag = f"r12writer#{idx}/{fmt}"
+        try:
+            with r12writer(path, fixed_tables=fixed, fmt=fmt) as w:
+                for name, kw, _ in calls:
+                    getattr(w, name)(**kw)
+        except Exception as ex:  # noqa
+            fails.append((f"r12writer/raised/{type(ex).__name__}", f"{tag}: {kinds} raised {type(ex).__name__}: {ex}"))
+            continue
+        readers = {"readfile": lambda: list(ezdxf.readfile(path).modelspace())}
+        if fmt == "asc":
+            probs = file_problems(path)
+            if probs:
+                fails.append(("r12writer/not-wellformed", f"{tag}: {probs[0]}"))
+            readers["recover.readfile"] = lambda: list(recover.readfile(path)[0].modelspace())
+            readers["iterdxf.modelspace"] = lambda: list(iterdxf.modelspace(path))
+
+            def sp():
+                with open(path, "rb") as fp:
+                    return list(iterdxf.single_pass_modelspace(fp))
+
+            readers["iterdxf.single_pass_modelspace"] = sp
+
+            def od():
+                it = iterdxf.opendxf(path)
+                try:
+                    return list(it.modelspace())
+                finally:
+                    it.close()
+
+            readers["iterdxf.opendxf"] = od
+        for rname, fn in readers.items():
+            signal.alarm(20)
+            try:
+                ents = fn()
+            except _Timeout:
+                fails.append((f"r12writer/{fmt}/{rname}/watchdog", f"{tag}: {rname} did not finish"))
+                continue
+            except Exception as ex:  # noqa
+                fails.append((f"r12writer/{fmt}/{rname}/raised/{type(ex).__name__}", f"{tag}: {rname} raised {type(ex).__name__}: {str(ex)[:100]}"))
+                continue
+            finally:
+                signal.alarm(0)
+            exp = [c[2] for c in calls]
+            if rname == "iterdxf.single_pass_modelspace" and len(ents) == len(exp) - 1:
+                # the last call wrote one entity (or one POLYLINE with SEQEND as the last group)
+                bad = next((d for d in (_check_r12_entity(e, x) for e, x in zip(ents, exp)) if d), None)
+                if bad is None:
+                    fails.append(("single-pass/last-entity-lost", f"{tag}: single_pass_modelspace lost the last entity {exp[-1][0]}"))
+                    continue
+            if len(ents) != len(exp):
+                fails.append((f"r12writer/{fmt}/{rname}/len", f"{tag}: {rname} delivers {[e.dxftype() for e in ents]}, written {[x[0] for x in exp]}"))
+                continue
+            for i, (e, x) in enumerate(zip(ents, exp)):
+                d = _check_r12_entity(e, x)
+                if d:
+                    fails.append((f"r12writer/{fmt}/{rname}/value/{calls[i][0]}", f"{tag}: {rname} entity {i} ({calls[i][0]}): {d}"))
+                    break
+    return kinds, fails, {"op": "r12", "seed": seed, "idx": idx}
+
+
+def r12_probes():
+    """documented call variants of add_polyline_2d"""
+    import io
+
+    from ezdxf.addons.r12writer import r12writer
+
+    out = []
+    for fmt, pts in (("vb", [((1.0, 2.0), 0.5)]), ("v", [((1.0, 2.0),)]), ("yx", [(2.0, 1.0)]), ("bxy", [(0.5, 1.0, 2.0)])):
+        s = io.StringIO()
+        try:
+            with r12writer(s) as w:
+                w.add_polyline_2d(pts, format=fmt)
+        except Exception as ex:  # noqa
+            out.append((f"r12writer/polyline_2d-format/{fmt}/raised/{type(ex).__name__}",
+                        f"add_polyline_2d(points={pts}, format={fmt!r}) raised {type(ex).__name__}: {ex}"))
+            continue
+        import ezdxf
+
+        try:
+            doc = ezdxf.read(io.StringIO(s.getvalue()))
+            pl = doc.modelspace()[0]
+            loc = pl.vertices[0].dxf.location
+            if (loc.x, loc.y) != (1.0, 2.0):
+                out.append((f"r12writer/polyline_2d-format/{fmt}/value", f"format {fmt!r}: vertex read back as {loc}"))
+        except Exception as ex:  # noqa
+            out.append((f"r12writer/polyline_2d-format/{fmt}/unreadable/{type(ex).__name__}",
+                        f"add_polyline_2d(points={pts}, format={fmt!r}) writes a file ezdxf.read rejects: {type(ex).__name__}: {ex}"))
+    return out
